@@ -8,10 +8,12 @@ mvars == <<tvars, hist>>
 
 MInit == Init /\ hist = <<>>
 Act(a, i) == hist' = Append(hist, [a |-> a, i |-> i])
+Dead == \E i \in T : phase[i] = "broken"       \* a task panicked: the case is over
 MNext ==
-  /\ Len(hist) < MaxAct
+  /\ Len(hist) < MaxAct /\ ~Dead
   /\ \E i \in T : \/ Poll(i) /\ Act("poll", i)
                   \/ ShellFires(i) /\ Act("fire", i)
+                  \/ N >= 2 /\ ShellFiresWrong(i) /\ Act("fire_wrong", i)
                   \/ AppClears(i) /\ Act("clear", i)
                   \/ DropHandle(i) /\ Act("drop_handle", i)
                   \/ ShellDropsStart(i) /\ Act("drop_start", i)
@@ -24,5 +26,5 @@ Useful ==
   \/ Len(hist) < 2
   \/ ~(hist[Len(hist)].a = "poll" /\ hist[Len(hist) - 1] = hist[Len(hist)])
 
-EmitSched == (Len(hist) = MaxAct) => PrintT(<<"SCHED", ToJson(hist)>>)
+EmitSched == (Len(hist) = MaxAct \/ Dead) => PrintT(<<"SCHED", ToJson(hist)>>)
 =============================================================================
